@@ -633,10 +633,14 @@ class MarkdownNormalizer(Renderer):
         return "\n" if element.soft else "\\\n"
 
     def render_code_span(self, element: inline.CodeSpan) -> str:
-        text = element.children
+        text = cast(str, element.children)
+        # The delimiter must be longer than any backtick run inside the span, and content
+        # that starts or ends with a backtick needs a space of padding (CommonMark 6.1).
+        longest_run = max((len(run) for run in re.findall(r"`+", text)), default=0)
+        delim = "`" * (longest_run + 1)
         if text and (text[0] == "`" or text[-1] == "`"):
-            return f"`` {text} ``"
-        return f"`{element.children}`"
+            return f"{delim} {text} {delim}"
+        return f"{delim}{text}{delim}"
 
     # --- GFM Renderer Methods ---
 
